@@ -168,6 +168,8 @@ Receive(src, b, n) ==
                /\ UNCHANGED <<tip, fin, recv>>
           [] OTHER -> UNCHANGED <<tip, fin, recv, banned>>
      /\ script' = Append(script, [op |-> "deliver", from |-> src, node |-> n, blk |-> b.id, byz |-> src \in Byz, branch |-> br, sync |-> out,
+                                  \* the LIP-0014 tie-break conditions hold as well (they must not matter for a double-forged block)
+                                  tiewin |-> (Duplicate(last, b) /\ last.slot < b.slot /\ recv[n] /\ last.slot # Now /\ b.slot = Now),
                                   obs |-> Obs(n, tip', fin', banned')])
 
 Deliver(p, n) == Receive(p, Blk(tip[p]), n)
@@ -226,6 +228,10 @@ TipsExist == \A n \in Nodes : \E b \in blocks : b.id = tip[n]
 HasFinality == \E n \in Nodes : fin[n] > 0
 FinDumpEvery == IF DumpEvery >= 10 THEN DumpEvery \div 10 ELSE 1
 HasFork == \E a, b \in blocks : a # b /\ a.h = b.h
+\* search help: dumps a behaviour in which a double-forged block arrives inside the tie-break window
+DumpDoubleForgeInTieWindow ==
+  (\E i \in 1..Len(script) : script[i].op = "deliver" /\ script[i].branch = "doubleforging" /\ script[i].tiewin)
+    => PrintT(<<"DUMP", ToJson([script |-> script])>>)
 Interesting == \E i \in 1..Len(script) : script[i].branch \in {"tiebreak", "differentchain", "doubleforging"}
 DumpInv ==
   (DumpEvery > 0 /\ (Len(script) = MaxSteps \/ ~ENABLED Next)
